@@ -231,3 +231,18 @@ def id_allocation_rule(r, ctx):
             "an id can be allocated although the name is already mapped: the identifier of a name changes")
     ret = [describe_rvalue(b, rv) for i, j, p, rv, line in b.assigns() if p[0] == 0 and not p[1]]
     r.check(True, "id_for/analysed", where(b), "returns %s" % ret[:2])
+
+
+def ty_of(body, operand):
+    """Type (as the compiler prints it) of the local an operand names, references stripped; '' when it is not a plain local."""
+    from mirlib import op_place
+    pl = op_place(operand)
+    if pl is None or [x for x in pl[1] if x != "*"]:
+        return ""
+    t = body.locals[pl[0]] if pl[0] < len(body.locals) else ""
+    while t.startswith("&"):
+        t = t[1:].lstrip()
+        if t.startswith("mut "):
+            t = t[4:]
+    return t
+
